@@ -12,7 +12,7 @@ from typing import Optional, Set
 
 # Local imports
 from .datatype import datatype
-from .connect import connectable
+from .connect import connectable, OrderedSet
 from .concat import concatable
 from .portref import PortRef
 
@@ -36,7 +36,7 @@ class NoConn:
     def __post_init__(self) -> None:
         # Internal management data
         # Connected port references
-        self._connected_ports: Set[PortRef] = set()
+        self._connected_ports: Set[PortRef] = OrderedSet()
 
     def __eq__(self, other: "NoConn") -> bool:
         """`NoConn`s are "equal" only if identical objects."""
